@@ -11,7 +11,12 @@ long files (> 10 statements) with the drops late in the file, and -- forced into
 evolution number (c18_lib.FOCUS) -- a column dropped and re-added under the same name in one file (ALTER and
 rebuild form), a table dropped and re-created in one file, one rebuild dropping a VIRTUAL generated column
 together with regular columns declared after / before it (atlas plan and hand SQL), and a schema-changing
-statement sitting between the CREATE new_t and the DROP t of a rebuild.
+statement sitting between the CREATE new_t and the DROP t of a rebuild; a canonical rebuild with a DROP TABLE /
+ALTER .. DROP COLUMN / second rebuild on another object right before its CREATE, right after its RENAME and one
+statement after its RENAME (hand), a `migrate diff` step that rebuilds a table and drops a later-sorting one (the
+DROP directly follows the RENAME), and rename-based removals: rename then drop, rename chains ending in a drop,
+the rename-first rebuild (RENAME t TO t_old; CREATE t without a column; INSERT; DROP t_old), temporary tables
+that are renamed before they are dropped.
 
 Observation: `atlas migrate lint --dir file://migrations --dev-url sqlite://dev.db --latest N
 --format '{{ json . }}'` for every window N: exit status and Files[].Reports[].Diagnostics[].{Code,Pos,Text}.
@@ -19,7 +24,11 @@ Observation: `atlas migrate lint --dir file://migrations --dev-url sqlite://dev.
 Oracle (independent of Atlas): the files are replayed statement by statement with python's sqlite3; PRAGMA
 facts after every statement follow the tables and non-virtual columns that existed BEFORE the file: one that
 disappears is dropped by that statement (a table keeps its identity through a rebuild group CREATE tmp .. DROP t
-.. RENAME tmp TO t; columns missing at the RENAME are dropped by the group); objects the file creates itself --
+.. RENAME tmp TO t; columns missing at the RENAME are dropped by the group; a table renamed by ALTER TABLE ..
+RENAME TO lives on under the new name, and when it is dropped later the RENAMEs and the final DROP together are
+the statements that remove it: one DS102 naming any of its names on any of them is accepted -- the community build
+has no parser and sees a RENAME as drop + add, it reports on the RENAME; for the rename-first rebuild a DS103 naming
+lost columns inside that range is accepted as well); objects the file creates itself --
 also under the name of something it dropped earlier -- are never "pre-existing" (state after each file is
 cross-checked with the model the files were generated from). Each dropped object must be covered by exactly one
 DS102 / DS103 diagnostic whose Pos lies inside the causing statement / group; nothing else may carry a DS1xx
